@@ -175,7 +175,9 @@ CLAIMED["C10"] = dict(
          "bytes before the mh tail overwrites them, with the 32-bit total length); the 64-bit arithmetic of "
          "_murmur3_x64_128_block / _tail (helpers inlined by gen_murmur.py) is proved to be the MurmurHash3_x64_128 body step "
          "of Spec/Murmur3.lean and the tail arithmetic of the model (canon_block_step, canon_tail_arith, murmurTail_eq); the "
-         "loop frame / byte gathering around it is shape-compared, not proved.",
+         "loop frame / byte gathering around it is shape-compared, not proved. The stitched C block function (same 1024n "
+         "bytes to mh_sha1 and murmur3, canon_blockbase) and the init function (for every seed both murmur words = seed, "
+         "canon_stitched) are translated and proved the same way.",
     note=_MH_NOTE, technique="Lean 4 proof over hand-written model + differential correspondence per family; Lean 4 proof over "
                               "source-translated update/tail/finalize programs (per-run decide obligations)",
     engine="MultiHash", ref="5 C10")
